@@ -101,6 +101,8 @@ def _apply_elem_wise_func(inputs: tuple[ArrayOrScalarT, ...],
     if not inputs:
         raise ValueError("at least one argument must be present")
 
+    from pytato.utils import are_shapes_equal
+
     shape = None
 
     sym_args: list[Expression] = []
@@ -113,7 +115,7 @@ def _apply_elem_wise_func(inputs: tuple[ArrayOrScalarT, ...],
 
             if shape is None:
                 shape = inp.shape
-            elif inp.shape != shape:
+            elif not are_shapes_equal(inp.shape, shape):
                 # FIXME: merge this logic with arithmetic, so that broadcasting
                 # is implemented properly
                 raise NotImplementedError("broadcasting in function application")
